@@ -59,11 +59,11 @@ func main() {
 	var cases []*bftsim.Case
 	// the engine-level history of DESIGN §5-F4 (scores are data of the script): correspondence only, see f4.go
 	cases = append(cases, &bftsim.Case{Kind: "script", Label: "f4-engine-level", Script: bftsim.F4Script()})
-	nNet := ctx.Scale(260, 8000)
+	nNet := ctx.Scale(900, 20000)
 	for i := 0; i < nNet; i++ {
 		cases = append(cases, &bftsim.Case{Kind: "script", Safety: true, Label: "net", Script: bftsim.GenNet(r.Fork(uint64(i)), ctx.Thorough())})
 	}
-	nHonest := ctx.Scale(60, 1500)
+	nHonest := ctx.Scale(200, 4000)
 	for i := 0; i < nHonest; i++ {
 		cases = append(cases, &bftsim.Case{Kind: "script", Safety: true, Honest: true, Label: "honest", Script: bftsim.GenHonest(r.Fork(uint64(2_000_000+i)), ctx.Thorough())})
 	}
